@@ -147,6 +147,53 @@ def explore(chk, rnd, tier):
             if a.get("r") != "ok" or b.get("r") != "ok" or canon(dec_val(a["v"])) != canon(dec_val(b["v"])):
                 chk.add_violation("async-differs-from-unqualified", {"sql": c["sql"], "doc": c["doc"], "async": a, "plain": b})
                 break
+    # nested queries forward their wait: qualified calls inside sub-queries, derived tables and EXISTS are
+    # complete (and ASYNC values resolved) when the OUTER Exec returns
+    if not chk.violations:
+        ncases = []
+        for i in range(120 if tier == "quick" else 1500):
+            rows = [{"id": r, "items": [{"x": 10 * r + j} for j in range(rnd.randint(0, 3))]} for r in range(rnd.randint(1, 4))]
+            qual = rnd.choice(["SPINASYNC", "ASYNC", "SPINASYNC", ""])
+            tag = "n%d" % i
+            shape = rnd.choice(["subq", "derived", "exists", "subq-in-where"])
+            call = "%sVF_SLOW('%s', x)" % (qual + "." if qual else "", tag)
+            col_ = call + (" AS v" if qual in ("ASYNC", "") else "")
+            if shape == "subq":
+                sql = "SELECT id, (SELECT x, %s FROM items) AS sub FROM t" % col_
+                expect = sorted(float(it["x"]) for r in rows for it in r["items"])
+            elif shape == "derived":
+                sql = "SELECT d.id AS id FROM (SELECT id, %s FROM t) AS d" % col_.replace("x)", "id)")
+                expect = sorted(float(r["id"]) for r in rows)
+            elif shape == "exists":
+                if qual == "ASYNC":
+                    qual, call = "SPINASYNC", "SPINASYNC.VF_SLOW('%s', x)" % tag
+                    col_ = call
+                sql = "SELECT id FROM t WHERE EXISTS (SELECT x, %s FROM items WHERE x >= 0)" % col_
+                expect = sorted(float(it["x"]) for r in rows for it in r["items"])
+            else:
+                sql = "SELECT id FROM t WHERE id IN (SELECT id, %s FROM `<-t`)" % col_.replace("x)", "id)")
+                expect = sorted(float(r2["id"]) for r in rows for r2 in rows)
+            ncases.append({"sql": sql, "doc": {"t": rows}, "tag": tag, "expect": expect, "qual": qual, "shape": shape,
+                           "lat": rnd.choice([[0], [300], [0, 1500], [800, 0, 0]])})
+        outs = run_go([{"op": "query", "doc": enc_val(c["doc"]), "sql": c["sql"], "latency": c["lat"]} for c in ncases], timeout=900)
+        for c, o in zip(ncases, outs):
+            chk.count("nested:" + c["shape"] + ":" + (c["qual"] or "plain") + ":" + str(o.get("r")))
+            if o.get("r") != "ok":
+                chk.add_violation("nested-qualified-query-failed", {"sql": c["sql"], "doc": c["doc"], "impl": o})
+                break
+            got = sorted(x for t, x in dec_val(o.get("callLog", [])) if t == c["tag"])
+            if got != c["expect"]:
+                chk.add_violation("nested-calls-not-complete-at-return", {
+                    "sql": c["sql"], "doc": c["doc"], "latency_us": c["lat"], "completed_invocations": got, "expected": c["expect"],
+                    "detail": "a qualified call inside a nested query had not run to completion exactly once per row when Exec returned"})
+                break
+            if c["qual"] == "ASYNC" and c["shape"] == "subq":
+                rows = dec_val(o["v"])
+                for src, row in zip(c["doc"]["t"], rows):
+                    want = [{"x": float(it["x"]), "v": float(it["x"])} for it in src["items"]]
+                    if canon(row.get("sub")) != canon(want):
+                        chk.add_violation("nested-async-value", {"sql": c["sql"], "doc": c["doc"], "impl": o, "expected_sub": want})
+                        break
     # immediate functions reject the goroutine qualifiers
     if not chk.violations:
         reqs, exp = [], []
